@@ -97,7 +97,7 @@ def _instances(targets, tier, first_only=False):
 def plan(tier):
     quick = tier == "quick"
     shards = []
-    n_hyp, per, maxlen = (10, 28, 10) if quick else (48, 105, 30)
+    n_hyp, per, maxlen = (10, 26, 10) if quick else (48, 60, 24)
     for i in range(n_hyp):
         shards.append({"kind": "hyp", "name": f"hist{i}", "examples": per, "maxlen": maxlen, "pool": i})
     n_ixv = 8 if quick else 24
@@ -122,7 +122,8 @@ def _dspec(name, vi):
 
 def enumerate(shard):  # noqa: A001 - name fixed by the module contract
     for case in _enumerate_space(shard):
-        if shard["space"] != "hashseed":
+        # tag = the pair space is enumerated completely for the victim (quick VxV takes every second predecessor)
+        if shard["space"] == "ixv" or (shard["space"] == "vxv" and shard["tier"] != "quick"):
             case["space"] = shard["space"]
         yield case
 
@@ -149,12 +150,16 @@ def _enumerate_space(shard):
             victims = [(n, _variant_ids(n, tier)[-1], t) for (n, t) in V_TARGETS][part::parts]
         else:
             firsts = _instances(V_TARGETS, tier)
-            victims = firsts[part::parts]
-        for (vn, vv, vt) in victims:
+            victims = _instances(V_TARGETS, "quick")[part::parts]  # first and last variant of every design
+        for vidx, (vn, vv, vt) in _enumerate(victims):
+            if tier == "quick":
+                firsts_v = firsts[(part + vidx) % 2::2]  # quick: every second predecessor (thorough: all)
+            else:
+                firsts_v = firsts
             yield {"designs": [_dspec(vn, vv)], "ops": [["c", 0, vt], ["a", 0, vt]]}
             yield {"designs": [_dspec(vn, vv)], "ops": [["c", 0, vt], ["f", 0, vt]]}
             yield {"designs": [_dspec(vn, vv)], "ops": [["a", 0, vt]]}
-            for (n, v, t) in firsts:
+            for (n, v, t) in firsts_v:
                 if n == vn and v == vv:
                     if t != vt:
                         yield {"designs": [_dspec(n, v)], "ops": [["c", 0, t], ["c", 0, vt]]}
